@@ -53,6 +53,17 @@ def inline_policy(fn, ev):
     return not vint.is_helper(fn)
 
 
+def field_of(F, self_ty, pred, default):
+    """name of the single field of the (local) struct behind `self_ty` whose type satisfies pred; `default` if there is no such struct/field"""
+    path = re.sub(r"^&(mut )?", "", self_ty or "").split("<")[0]
+    for a in F.crate("postcard").adts.values():
+        if a.get("def") == path:
+            hits = [fl["name"] for v in a.get("variants", []) for fl in v.get("fields", []) if pred(fl.get("ty"))]
+            if len(hits) == 1:
+                return hits[0]
+    return default
+
+
 class DeCx:
     def __init__(self, F, helpers, fn, path):
         self.F = F
@@ -61,8 +72,11 @@ class DeCx:
         self.path = path
         self.bits = tbl.path_bits(path)
         self.self_ = ("param", 1, fn.locals[1]["ty"])
-        self.flavor = ("F", ("P", self.self_), "flavor")
-        self.bits.types[("init", ("F", ("P", self.self_), "len"))] = "usize"
+        # private field names are found by what the fields hold: the flavor is the Deserializer's field of a type-parameter type, the element
+        # count is the access object's usize field
+        self.flavor = ("F", ("P", self.self_), field_of(F, fn.locals[1]["ty"], lambda t: re.fullmatch(r"[A-Z]\w{0,3}", t or "") is not None, "flavor"))
+        self.count_field = field_of(F, fn.locals[1]["ty"], lambda t: t == "usize", "len")
+        self.bits.types[("init", ("F", ("P", self.self_), self.count_field))] = "usize"
 
     def is_flavor(self, t):
         return t[0] == "ref" and t[1] == self.flavor
@@ -188,15 +202,32 @@ def other_effects(cx, evs, allow_std=()):
     return None
 
 
+ACCESS_TYPES = {}      # "SeqAccess" / "MapAccess" -> the local types that implement that serde trait (whatever they are called)
+
+
+def is_access_impl(f, kinds=("SeqAccess", "MapAccess")):
+    """a method of a local implementation of serde's SeqAccess / MapAccess (one type may implement both)"""
+    return f.crate == "postcard" and (f.impl_trait or "") in tuple("serde_core::de::" + k for k in kinds) and "::test" not in f.canon
+
+
+def note_access_types(F):
+    ACCESS_TYPES.clear()
+    for f in F.crate("postcard").fns:
+        if is_access_impl(f):
+            ACCESS_TYPES.setdefault(f.impl_trait.split("::")[-1], set()).add((f.impl_self or "").split("<")[0])
+
+
 def seqaccess(cx, t, len_expected, kind="SeqAccess"):
     t = norm(t)
-    if not (t[0] == "agg" and t[1] == "adt" and t[2].endswith("::" + kind)):
+    if not (t[0] == "agg" and t[1] == "adt" and (t[2].endswith("::" + kind) or t[2].split("::", 1)[-1] in ACCESS_TYPES.get(kind, ()))):
         return "visitor does not receive a %s" % kind
-    f = dict(zip(t[4], t[5]))
-    if norm(f.get("deserializer")) != cx.self_:
+    # the two parts by what they hold (their names are private): the deserializer reference and the element count
+    vals = [norm(v) for v in t[5]]
+    if len(vals) != 2 or cx.self_ not in vals:
         return "%s does not wrap this deserializer" % kind
-    if not same_int(cx, f.get("len"), len_expected):
-        return "%s length is %s, expected %s" % (kind, sym.show(norm(f.get("len"))), sym.show(norm(len_expected)))
+    ln = [v for v in t[5] if norm(v) != cx.self_]
+    if len(ln) != 1 or not same_int(cx, ln[0], len_expected):
+        return "%s length is %s, expected %s" % (kind, sym.show(norm(ln[0])) if ln else "?", sym.show(norm(len_expected)))
     return None
 
 
@@ -206,6 +237,8 @@ def usize_of_rd64(e):
 
 
 def check_method(run, F, helpers, fn):
+    if not ACCESS_TYPES:
+        note_access_types(F)
     tr = (fn.impl_trait or "").split("::")[-1]
     key = "%s::%s" % (tr, fn.name)
     site = fn.where()
@@ -579,7 +612,7 @@ def check_accept_or_reject(cx, fn, p, evs, P, seen):
         seen.add("accept")
         return None
     if n in ("next_element_seed", "next_key_seed"):
-        lenloc = ("F", ("P", cx.self_), "len")
+        lenloc = ("F", ("P", cx.self_), cx.count_field)
         ln0 = ("init", lenloc)
         sd = [e for e in evs if classify(cx, e)[0] == "SEED"]
         wr = [e for e in p.events if e["k"] == "write" and e["loc"] == lenloc]
@@ -693,8 +726,7 @@ def run(run_, ctx):
     run_.bodies += len(pc.fns)
     fns = [f for f in pc.fns if f.dk == "AssocFn" and (
         (is_deser_self(f.impl_self) and f.impl_trait in (DE_TRAIT, "serde_core::de::VariantAccess", "serde_core::de::EnumAccess"))
-        or ((f.impl_self or "").startswith("de::deserializer::SeqAccess<") and f.impl_trait == "serde_core::de::SeqAccess")
-        or ((f.impl_self or "").startswith("de::deserializer::MapAccess<") and f.impl_trait == "serde_core::de::MapAccess"))]
+        or is_access_impl(f))]
     for f in sorted(fns, key=lambda f: (f.impl_trait, f.name)):
         if f.name == "size_hint":
             continue
